@@ -68,6 +68,7 @@ pub struct BatchCfg {
     pub engine: &'static str,
     pub components: Value,
     pub assumptions: Vec<String>,
+    pub extra: Value,
 }
 
 pub struct BatchResult {
@@ -229,6 +230,7 @@ where
             "components": cfg.components,
             "worker_threads": cfg.jobs,
             "batch_event_log_hash": format!("{:016x}", batch_hash),
+            "tier_specific": cfg.extra,
         },
         "assumptions": cfg.assumptions,
     });
